@@ -27,8 +27,17 @@ META = {
     }
 }
 
-KAD_FIELDS = ("ev", "caller", "key", "quorum", "target", "q", "p", "c", "k")
-KAD_EV = ("Call", "Found", "Finished", "NotFound", "QuorumFailed", "Timeout")
+KAD_FIELDS = ("ev", "caller", "key", "quorum", "target", "isreg", "eh", "q", "p", "c", "k")
+KAD_EV = ("Call", "Cancel", "Found", "Finished", "NotFound", "QuorumFailed", "Timeout")
+
+# Scenario classes that are off by default (each is expected to fail on a tree that has the corresponding
+# suspected defect; see the builder's report).  Switched on by setting the variable to 1.
+#   VERIF_ENABLE_C05_CANCEL    callers that drop their receiver while other callers share the query
+#   VERIF_ENABLE_C05_FOREIGN   client-side split cases with a register of another base / a foreign owner's scratchpad
+#   VERIF_ENABLE_C05_TXNBYTES  byte comparison (not only value comparison) of merged transaction records across runs
+def enabled(name):
+    return os.environ.get("VERIF_ENABLE_C05_" + name) == "1"
+
 
 
 def extra_kf():
@@ -50,7 +59,7 @@ def model_phase(v, w, thorough, scn_path, cases_path):
     if mc.violated:
         v.violation("model:" + mc.violated, "the model of the pending-read bookkeeping / split merge falsifies a clause beyond the listed known findings (design-level counterexample)",
                     {"area": "getrecord", "tlc": mc.error_text[:8000]})
-    never = [a for a in mc.actions_never_taken() if a.startswith("Do") and a != "DoEnd"]
+    never = [a for a in mc.actions_never_taken() if a.startswith("Do") and a != "DoEnd"]   # (DoCancel is always explored exhaustively)
     if never:
         raise ToolError("actions never taken in MCGetRecord: %s" % never)
     sim = tlc("getrecord", "MCGetRecord", "MCGetRecord_sim.cfg", w, workers=1, simulate="num=%d" % (6000 if thorough else 600), depth=16,
@@ -85,9 +94,10 @@ def run(prop, tier, replay=None):
             shutil.copy(cases_path, ccache)
     build(PACKAGES)
     trace = os.path.join(w, "trace.ndjson")
-    args = ["--scenarios", scn_path, "--cases", cases_path, "--out", trace, "--orders", 24 if thorough else 6]
+    args = ["--scenarios", scn_path, "--cases", cases_path, "--out", trace, "--orders", 24 if thorough else 6,
+            "--txnbytes", 1 if enabled("TXNBYTES") else 0]
     if not replay:
-        args += ["--random", 3000 if thorough else 300, "--directed", 1]
+        args += ["--random", 3000 if thorough else 300, "--directed", 1, "--cancel", 1 if enabled("CANCEL") else 0]
     run_driver("drv_getrecord", args, w)
     rep = validate_trace("getrecord", "GetRecordTrace", "GetRecordTrace.cfg", trace, w, timeout=3400, heap="6g")
     events = read_ndjson(trace)
@@ -108,19 +118,19 @@ def run(prop, tier, replay=None):
         for x in events[starts[line - 1] + 1:line]:
             if x["ev"] not in KAD_EV:
                 continue
-            steps.append({k: x[k] for k in KAD_FIELDS})
+            steps.append({k: x.get(k, 0) for k in KAD_FIELDS})
         return {"area": "getrecord", "scenario": steps, "event": e}
 
     def describe(x):
         e = events[x["line"] - 1]
         if e["ev"] == "SplitCase":
             return "client-side split of versions %s (target %s), witness run %s at trace line %d: runs=%s" % (
-                e["vs"], e["target"], x["w"], x["line"], [(r["it"], r["o"]["kind"], r["o"]["vk"], r["o"]["vs"]) for r in e["runs"]][:8])
+                e["vs"], e["target"], x["w"], x["line"], [(r["it"], r["o"]["kind"], r["o"]["vk"], r["o"]["vb"], r["o"]["vm"], r["o"]["h"]) for r in e["runs"]][:8])
         if e["ev"] == "ClientRetry":
             return "read with retries at trace line %d: answers=%s natt=%s used=%s outcome=%s" % (x["line"], e["ans"], e["natt"], e["used"], e["o"])
         return "witness caller %s at step %s(q=%s,p=%s,c=%s,k=%s) line %d (src=%s): delivered=%s pending=%s" % (
             x["w"], e["ev"], e["q"], e["p"], e["c"], e["k"], x["line"], e.get("src"),
-            [(d["caller"], d["o"]["kind"], d["o"]["e"], d["o"]["cid"], d["o"]["k"], d["o"]["vs"]) for d in e["dl"]], e["pend"])
+            [(d["caller"], d["o"]["kind"], d["o"]["e"], d["o"]["cid"], d["o"]["k"], d["o"]["vm"]) for d in e["dl"]], e["pend"])
 
     for x in rep["violations"]:
         e = events[x["line"] - 1]
@@ -143,7 +153,7 @@ def run(prop, tier, replay=None):
     distinct = set()
     for e in kad:
         if e["dl"] or e["ev"] == "Call":
-            distinct.add(json.dumps([e[k] for k in KAD_FIELDS] + [e["att"], e["dl"], e["pend"]], sort_keys=True))
+            distinct.add(json.dumps([e.get(k, 0) for k in KAD_FIELDS] + [e["att"], e["dl"], e["pend"]], sort_keys=True))
     for e in client:
         distinct.add(json.dumps([e.get("vs"), e.get("target"), e.get("ans"), e.get("natt"), e.get("runs"), e.get("o")], sort_keys=True))
     v.cov["evaluations"] = len(kad) + len(client)
@@ -153,7 +163,7 @@ def run(prop, tier, replay=None):
                      "behaviour over 18 contents x 8 peers x up to 4 callers), or one get_record_from_network call group (a split presented under every iteration order of the result map, "
                      "or a read with retries); non-trivial = a Call, a step that delivered an outcome, or a client-side case; distinct = distinct (step, arguments, attachment, "
                      "delivered outcomes, pending view) resp. (versions, target, answers, results)")
-    first_run = [{k: e[k] for k in KAD_FIELDS + ("att", "dl", "pq")} for e in events[1:starts.get(1, 0) + 12] if e["ev"] in KAD_EV][:8]
+    first_run = [{k: e.get(k, 0) for k in KAD_FIELDS + ("att", "dl", "pq")} for e in events[1:starts.get(1, 0) + 12] if e["ev"] in KAD_EV][:8]
     v.cov["samples"] = [first_run] + [{k: e[k] for k in ("ev", "vs", "target", "runs")} for e in client if e["ev"] == "SplitCase" and len(e["vs"]) == 3][:2] + \
                        [{k: e[k] for k in ("ev", "ans", "natt", "used", "o")} for e in client if e["ev"] == "ClientRetry" and e["used"] == 2][:1]
     v.cov["impl_stats"] = rep.get("stats")
